@@ -7,6 +7,10 @@
 
 #include "dyn_policies.hpp"
 
+#include <yorel/yomm2/generator.hpp>
+
+#include <sstream>
+
 #include <cstdlib>
 #include <new>
 #include <utility>
@@ -107,6 +111,25 @@ struct Param<P, 'N'> { // non-virtual int
 
 template<int Key, char... S>
 struct MKey {};
+constexpr int kStaticKey = 7; // pool methods with this key read their offsets from static_offsets<>
+
+} // namespace dyn
+
+namespace yorel {
+namespace yomm2 {
+namespace detail {
+// Mutable "generated header": the methods of the pool with key kStaticKey take the static-offset
+// path of resolve(); the harness fills these arrays at run time with the numbers the generator wrote.
+template<char... S, class Sig, class P>
+struct static_offsets<method<dyn::MKey<dyn::kStaticKey, S...>, Sig, P>> {
+    static inline std::size_t slots[4];
+    static inline std::size_t strides[3];
+};
+} // namespace detail
+} // namespace yomm2
+} // namespace yorel
+
+namespace dyn {
 
 template<char... S>
 struct ShapeInfo {
@@ -133,6 +156,10 @@ struct Slot {
     int (*do_call)(Obj* const*) = nullptr;
     int (*call_ptr)(void*, Obj* const*) = nullptr;
     int (*do_call_vp)(const void* const*) = nullptr; // virtual args given as ready-made virtual_ptr objects ('P','R','Q' shapes)
+    std::size_t* so_slots = nullptr;   // static_offsets arrays (key kStaticKey only)
+    std::size_t* so_strides = nullptr;
+    bool so_loaded = false, so_exact = false; // loaded since the last update / equal to what the generator wrote
+    std::vector<std::size_t> gen_slots, gen_strides; // what the generator wrote for this method, last time
     // run-time state
     bool allocated = false, declared = false;
     int m = -1;
@@ -215,6 +242,11 @@ struct MS {
         s.do_call = &do_call;
         s.call_ptr = &call_ptr;
         s.do_call_vp = handle_shape ? &do_call_vp : nullptr;
+        if constexpr (Key == kStaticKey) {
+            s.shape = "s" + s.shape;
+            s.so_slots = detail::static_offsets<M>::slots;
+            s.so_strides = detail::static_offsets<M>::strides;
+        }
         return s;
     }
 };
@@ -275,6 +307,8 @@ struct Runner : IRunner {
         add<0, 'V', 'V', 'V'>(); add<1, 'V', 'V', 'V'>(); add<0, 'V', 'N', 'V', 'N', 'V'>();
         add<0, 'P', 'V', 'P'>(); add<0, 'N', 'V', 'N', 'V', 'N', 'V'>();
         add<0, 'V', 'V', 'V', 'V'>(); add<0, 'V', 'N', 'V', 'V', 'N', 'V'>(); add<0, 'P', 'V', 'V', 'P'>();
+        add<7, 'V'>(); add<7, 'V', 'V'>(); add<7, 'V', 'N', 'V'>(); add<7, 'V', 'V', 'V'>(); add<7, 'V', 'N', 'V', 'N', 'V'>();
+        add<7, 'V', 'V', 'V', 'V'>(); add<7, 'P', 'V', 'P'>(); add<7, 'N', 'V', 'V', 'N'>();
         add<0, 'R'>(); add<0, 'Q'>(); add<0, 'R', 'N', 'P'>(); add<0, 'Q', 'Q'>(); add<0, 'P', 'N', 'R', 'P'>();
     }
 
@@ -549,6 +583,9 @@ struct Runner : IRunner {
                 r.res = UpdateResult::other;
             }
         };
+        for (auto& sl : pool) {
+            sl.so_loaded = false;
+        }
         try {
             auto comp = yorel::yomm2::update<P>();
             r.rep.cells = comp.report.cells;
@@ -676,6 +713,10 @@ struct Runner : IRunner {
         } else if (c.kind == Caught::unknown_class) {
             r.o = -3;
             r.unknown_id = c.type;
+        } else if (c.kind == Caught::static_slot) {
+            r.o = -4;
+        } else if (c.kind == Caught::static_stride) {
+            r.o = -5;
         } else {
             r.o = -97;
         }
@@ -696,6 +737,10 @@ struct Runner : IRunner {
         } catch (const unknown_class_error& e) {
             r.o = -3;
             r.unknown_id = e.type;
+        } catch (const static_slot_error&) {
+            r.o = -4;
+        } catch (const static_stride_error&) {
+            r.o = -5;
         } catch (const error&) {
             r.o = -97;
         }
@@ -1057,6 +1102,103 @@ struct Runner : IRunner {
             collect_recv(r);
         });
         return r;
+    }
+    // ---- generated static offsets (C12)
+    static std::vector<std::size_t> numbers(const std::string& s) {
+        std::vector<std::size_t> v;
+        std::istringstream ss(s);
+        std::string tok;
+        while (std::getline(ss, tok, ',')) {
+            v.push_back(std::strtoull(tok.c_str(), nullptr, 10));
+        }
+        return v;
+    }
+    std::string write_offsets() override {
+        std::ostringstream os;
+        generator().template write_static_offsets<P>(os);
+        std::string text = os.str(), rows;
+        bool ill = false;
+        std::istringstream ls(text);
+        std::string line;
+        const std::string head = "template<> struct yorel::yomm2::detail::static_offsets<";
+        while (std::getline(ls, line)) {
+            if (line.empty()) {
+                continue;
+            }
+            auto b = line.find("> {static constexpr std::size_t slots[] = {");
+            if (line.compare(0, head.size(), head) != 0 || b == std::string::npos) {
+                ill = true;
+                continue;
+            }
+            std::string name = line.substr(head.size(), b - head.size());
+            auto sb = line.find('{', b + 3) + 1;
+            auto se = line.find('}', sb);
+            std::vector<std::size_t> slots = numbers(line.substr(sb, se - sb)), strides;
+            auto tb = line.find("strides[] = {");
+            if (tb != std::string::npos) {
+                tb += 13;
+                strides = numbers(line.substr(tb, line.find('}', tb) - tb));
+            }
+            Slot* which = nullptr;
+            for (auto& sl : pool) {
+                if (sl.declared &&
+                    boost::core::demangle(reinterpret_cast<const std::type_info*>(sl.info->method_type)->name()) == name) {
+                    which = &sl;
+                }
+            }
+            if (!which) {
+                ill = true;
+                continue;
+            }
+            which->gen_slots = slots;
+            which->gen_strides = strides;
+            auto jl = [](const std::vector<std::size_t>& v) {
+                std::string s = "[";
+                for (std::size_t i = 0; i < v.size(); ++i) s += (i ? "," : "") + std::to_string(v[i]);
+                return s + "]";
+            };
+            rows += (rows.empty() ? "[" : ",[") + std::to_string(which->m) + "," + jl(slots) + "," + jl(strides) + "]";
+        }
+        return std::string("\"illformed\":") + (ill ? "true" : "false") + ",\"rows\":[" + rows + "]";
+    }
+    // load the generated numbers into the static arrays of method m; which/idx/delta perturb one number
+    bool load_offsets(int m, int which, int idx, int delta, std::string& json) override {
+        Slot* s = slot_of(m);
+        if (!s || !s->so_slots || (int)s->gen_slots.size() != s->arity) {
+            return false;
+        }
+        std::vector<std::size_t> sl = s->gen_slots, st = s->gen_strides;
+        st.resize(s->arity - 1);
+        s->so_exact = true;
+        if (which == 0 && idx < (int)sl.size()) {
+            sl[idx] += delta;
+            s->so_exact = false;
+        } else if (which == 1 && idx < (int)st.size()) {
+            st[idx] += delta;
+            s->so_exact = false;
+        }
+        std::copy(sl.begin(), sl.end(), s->so_slots);
+        std::copy(st.begin(), st.end(), s->so_strides);
+        s->so_loaded = true;
+        auto jl = [](const std::vector<std::size_t>& v) {
+            std::string x = "[";
+            for (std::size_t i = 0; i < v.size(); ++i) x += (i ? "," : "") + std::to_string(v[i]);
+            return x + "]";
+        };
+        json = "\"slots\":" + jl(sl) + ",\"strides\":" + jl(st) + ",\"exact\":" + (s->so_exact ? "true" : "false");
+        return true;
+    }
+    // may method m be called right now?  (static-offset methods need their arrays loaded; wrong numbers
+    // are only legal to try under a checked policy, which must diagnose them)
+    bool callable(int m) override {
+        Slot* s = slot_of(m);
+        if (!s) {
+            return false;
+        }
+        if (!s->so_slots) {
+            return true;
+        }
+        return s->so_loaded && (s->so_exact || checked());
     }
     std::string shape_of(int m) const override {
         for (auto& s : pool) {
